@@ -414,11 +414,13 @@ def State.removeAll (s : State) (hs : List Nat) : Option State :=
 
 def dedupSorted (l : List Nat) : List Nat := (l.mergeSort (· ≤ ·)).eraseDups
 
+/-- `Request::to_handle`: an id is resolved through the id map, a handle is taken as is -/
+def State.annHandleOf (s : State) : Ref → Option Nat
+  | .id i => s.resolveAnn (.id i)
+  | .h n => some n
+
 def State.rmAnn (s : State) (r : Ref) : Resp × State :=
-  let h : Option Nat := match r with
-    | .id i => s.resolveAnn (.id i)
-    | .h n => some n
-  match h.bind (fun h => s.removeAnn s.fuel h) with
+  match (s.annHandleOf r).bind (fun h => s.removeAnn s.fuel h) with
   | some s1 => (.ok "-", s1)
   | none => (.err, s)
 
